@@ -86,7 +86,7 @@ func (i *interpreter) lookupIntercept(fn *ssa.Function) intercept {
 		if stubPackages[path] {
 			sig := fn.Signature
 			ic = func(fr *frame, args []value) value {
-				return zeroResults(sig)
+				return stubResults(sig, args)
 			}
 		} else if fn.Name() == "init" && fn.Synthetic != "" && strings.HasPrefix(fn.Synthetic, "package init") {
 			pkg := fn.Pkg
@@ -155,6 +155,47 @@ func zeroResults(sig *types.Signature) value {
 		out[i] = one(sig.Results().At(i).Type())
 	}
 	return out
+}
+
+// stubResults is zeroResults, except that a context.Context result is the function's first
+// context.Context argument (the stubbed console helpers only decorate the context they get).
+func stubResults(sig *types.Signature, args []value) value {
+	res := zeroResults(sig)
+	off := 0
+	if sig.Recv() != nil {
+		off = 1
+	}
+	var ctxArg value
+	for i := 0; i < sig.Params().Len(); i++ {
+		if isContextType(sig.Params().At(i).Type()) && off+i < len(args) {
+			ctxArg = args[off+i]
+			break
+		}
+	}
+	if ctxArg == nil {
+		return res
+	}
+	switch sig.Results().Len() {
+	case 0:
+		return res
+	case 1:
+		if isContextType(sig.Results().At(0).Type()) {
+			return ctxArg
+		}
+		return res
+	}
+	t := res.(tuple)
+	for i := range t {
+		if isContextType(sig.Results().At(i).Type()) {
+			t[i] = ctxArg
+		}
+	}
+	return t
+}
+
+func isContextType(t types.Type) bool {
+	n, ok := t.(*types.Named)
+	return ok && n.Obj().Pkg() != nil && n.Obj().Pkg().Path() == "context" && n.Obj().Name() == "Context"
 }
 
 // runBody executes fn's SSA body bypassing the intercept lookup.
